@@ -186,6 +186,9 @@ def run_jobs_list(quick=True):
         dict(n=10, batch_size=None, max_iter=30, patience=4, atol=0.5, validation=True),
         dict(n=9, batch_size=4, max_iter=25, patience=3, rtol=0.05, atol=0.0, validation=True, prune=False),
         dict(n=8, batch_size=2, max_iter=12, patience=3, validation=True, restore=False, lr=0.5),
+        # a patience window longer than the iteration limit (with and without a validation model): runs to the limit
+        dict(n=10, batch_size=None, max_iter=6, patience=9, validation=True),
+        dict(n=10, batch_size=5, max_iter=7, patience=10, validation=False, lr=1.2),
         # no validation model, patience < max_iter, non-monotone loss (large learning rate)
         dict(n=10, batch_size=None, max_iter=30, patience=4, validation=False, lr=1.2),
     ]
